@@ -1,7 +1,8 @@
 """C29 - removing signatures removes them all and nothing else.
 G: TLC enumerates document structures (spec/SigRemove.tla): signature fields merged with / separate from their widgets, on
    1-3 pages, with and without /P, nested in non-terminal fields (depth <= 3), next to text fields, certification (/DocMDP)
-   and usage-rights (/UR3) entries, a link annotation - each state is one case with the predicted post-state.
+   and usage-rights (/UR3) entries, a link annotation; /Perms, /AcroForm, /Fields and /Kids stored inline or as indirect
+   objects; unsigned documents with a stale /SigFlags (absent, 0, 1, 3) - each state is one case with the predicted post-state.
 R: harness/cmd/sig builds every case with the raw PDF emitter, runs the real api.RemoveSignaturesFile inside the recording
    sandbox, re-reads the output with pdfcpu and compares its object graph with the prediction; the real signed samples go
    through the same comparison. Documents without signatures must be refused with ErrNoSignatures and nothing written."""
@@ -11,7 +12,7 @@ import vlib
 META = {
     "level": "model_checking",
     "text": "TLC enumerates every document structure of SigRemove.tla within the bounds (entry shapes x pages x signed x /P x "
-            "/Perms subsets x link) together with the post-state RemoveSigs predicts; every state is built as a real PDF, run "
+            "/Perms subsets x link x direct/indirect storage of /Perms, /AcroForm, /Fields, /Kids x stale /SigFlags of unsigned documents) together with the post-state RemoveSigs predicts; every state is built as a real PDF, run "
             "through the real api.RemoveSignaturesFile and the re-read output compared: no signature dictionaries, signature fields, "
             "signature widgets, /Perms, /SigFlags; other fields, annotations and pages unchanged; unsigned documents refused with the "
             "no-signatures error without writing (os-call recorder). The 8 real signed samples are compared the same way.",
@@ -29,7 +30,7 @@ def run(ctx):
     d = vlib.scratch_dir()
     env = dict(os.environ, TMPDIR=d, VERIF_SANDBOX_BASE=d)
     try:
-        cfgs = ["SigRemove_quick.cfg"] if ctx.quick else ["SigRemove_thorough.cfg", "SigRemove_deep.cfg"]
+        cfgs = ["SigRemove_quick.cfg"] if ctx.quick else ["SigRemove_thorough.cfg", "SigRemove_ind.cfg", "SigRemove_deep.cfg"]
         total = nontrivial = nosig = nsamples = 0
         keys = {}
         first = {}
